@@ -226,6 +226,9 @@ def _unique_name(params: Any) -> str:
     ambiguous = any(
         [isinstance(v, str) and (v == "None" or "=" in v or " " in v) for v in vals]
     )
+    # Nor are values written with a "." - floats such as 1.5, or paths. Module names are dot-separated paths:
+    # importers and netlisters split them there, and would take `5)` for the name of `Gen(w=1.5)`.
+    ambiguous = ambiguous or any(["." in str(v) for v in vals])
 
     # If all params are (unambiguous) scalars, create a readable string of their values
     if all_scalar and not ambiguous:
